@@ -119,7 +119,7 @@ fn bspec(i: usize, parent: Option<u16>, dt: u32) -> BlockSpec {
 pub fn run_sync(case: &SyncCase) -> (Vec<(String, String)>, SyncInfo) {
     let mut info = SyncInfo::default();
     let mut v: Vec<(String, String)> = vec![];
-    let ncfg = NodeCfg { gp: 100, heartbeat: 100, social_stake: 0, loading_completed: case.loading_completed };
+    let ncfg = NodeCfg { gp: 100, heartbeat: 100, social_stake: 0, loading_completed: case.loading_completed, prune: 8 };
     let (p, a, b) = (case.p as usize, case.a as usize, (case.b as usize).max(case.a as usize + 1));
     // build: prefix, then A's suffix, then B's suffix from the fork point
     let mut blocks = vec![];
